@@ -22,7 +22,10 @@ impl<'a> CharCounter<'a>
 		end: usize)
 		-> &str
 	{
-		self.src.get(start..end).unwrap()
+		// The range may be stale if the file's contents changed
+		// since the span was created (e.g. an output file written
+		// over a source file): show nothing rather than panic.
+		self.src.get(start..end).unwrap_or("")
 	}
 	
 	
